@@ -4,7 +4,10 @@ evidence, print the interface lines."""
 import json, os, subprocess, sys, time, hashlib, shutil, concurrent.futures as cf
 
 ROOT = os.path.dirname(os.path.dirname(os.path.abspath(__file__)))
-BUILD = os.path.join(ROOT, "build")
+BUILD = os.environ.get("VERIF_BUILD") or os.path.join(ROOT, "build")
+REPO = os.environ.get("VERIF_REPO") or "/repo"
+# evidence/replays of runs against a scratch tree (VERIF_REPO/VERIF_BUILD set) go under that build dir
+OUT = ROOT if BUILD == os.path.join(ROOT, "build") and REPO == "/repo" else BUILD
 sys.path.insert(0, os.path.join(ROOT, "lib"))
 import props  # noqa: E402
 
@@ -19,10 +22,12 @@ def machinery_error(msg):
 
 
 def load_known():
-    p = os.path.join(ROOT, "known_findings.json")
-    if not os.path.exists(p):
-        return []
-    return json.load(open(p))["findings"]
+    import glob
+    out = []
+    for p in [os.path.join(ROOT, "known_findings.json")] + sorted(glob.glob(os.path.join(ROOT, "known_findings.d", "*.json"))):
+        if os.path.exists(p):
+            out += json.load(open(p))["findings"]
+    return out
 
 
 def harness_cmd(part):
@@ -42,7 +47,9 @@ def env_for(part):
         [os.path.join(v, "tools/src/libtools"), os.path.join(v, "csg/src/libcsg"),
          "/usr/lib/x86_64-linux-gnu/hdf5/serial", env.get("LD_LIBRARY_PATH", "")])
     env["OMP_NUM_THREADS"] = "1"
-    env["VOTCASHARE"] = "/repo/csg/share"  # scripts/xml are read from the working tree
+    env["VERIF_REPO"] = REPO
+    env["VERIF_BUILD"] = BUILD
+    env["VOTCASHARE"] = REPO + "/csg/share"  # scripts/xml are read from the working tree
     env.setdefault("ASAN_OPTIONS", "detect_leaks=0:abort_on_error=0:exitcode=97")
     env.setdefault("UBSAN_OPTIONS", "print_stacktrace=1:halt_on_error=1:exitcode=97")
     env.update(part.get("env", {}))
@@ -90,7 +97,7 @@ def confirm_case(part, case, rundir, idx):
 
 
 def write_replay(pid, part, f, confirm_out):
-    d = os.path.join(ROOT, "replays", pid)
+    d = os.path.join(OUT, "replays", pid)
     os.makedirs(d, exist_ok=True)
     h = hashlib.sha1((part["name"] + f["key"] + f["case"]).encode()).hexdigest()[:10]
     safe = "".join(c if c.isalnum() or c in "-_." else "_" for c in f["key"])[:60]
@@ -226,7 +233,7 @@ def main(argv):
     # harness crashes: the code under test died outside any per-case containment
     for part, r in crashes:
         tail = open(r["log"]).read()[-3000:] if os.path.exists(r["log"]) else ""
-        d = os.path.join(ROOT, "replays", pid); os.makedirs(d, exist_ok=True)
+        d = os.path.join(OUT, "replays", pid); os.makedirs(d, exist_ok=True)
         p = os.path.join(d, "%s-crash-shard%d.json" % (part["name"], r["shard"]))
         json.dump(dict(property=pid, part=part["name"], key="harness-crashed", rc=str(r["rc"]),
                        what="harness process died (rc=%s) while exploring; log tail attached" % r["rc"],
@@ -278,10 +285,10 @@ def main(argv):
     ev = dict(property_id=pid, tier=tier, seed=seed, level=spec["level"], coverage=cov,
               assumptions=spec.get("assumptions", []) + merged["assumptions"], wall_s=round(wall, 2),
               violations=len(violations))
-    os.makedirs(os.path.join(ROOT, "evidence"), exist_ok=True)
-    tmp = os.path.join(ROOT, "evidence", pid + ".json.tmp")
+    os.makedirs(os.path.join(OUT, "evidence"), exist_ok=True)
+    tmp = os.path.join(OUT, "evidence", pid + ".json.tmp")
     json.dump(ev, open(tmp, "w"), indent=1)
-    os.replace(tmp, os.path.join(ROOT, "evidence", pid + ".json"))
+    os.replace(tmp, os.path.join(OUT, "evidence", pid + ".json"))
 
     print("%s tier=%s evaluations=%d distinct=%d exhaustive=%s violations=%d known=%d wall=%.1fs" %
           (pid, tier, merged["evaluations"], distinct, cov["exhaustive"], len(violations), len(knownhits), wall))
